@@ -1,7 +1,124 @@
 package checks
 
-import "github.com/bufbuild/verifharness/core"
+import (
+	"fmt"
+	"os"
+	"path/filepath"
+	"strings"
 
-func c13CLICases(tier string) int { return 0 }
+	"github.com/bufbuild/verifharness/core"
+	"github.com/bufbuild/verifharness/model"
+	"github.com/bufbuild/verifharness/run"
+)
 
-func c13CLI(c *core.C, idx int) {}
+// CLI boundary of C13 (the "consequently" clause): configuration-supplied directories and --path
+// values drawn from the same component alphabet must not let a command read, list, rewrite or
+// export anything outside the workspace directory it is confined to.
+//
+// Layout: X/ws (workspace, cwd) next to X/outside/o.proto, X/o.proto and X/ws-sibling/o.proto
+// (all with a marker message). Oracle: an escaping value ⇒ non-zero exit; in every case the
+// outside is unchanged and no output names or contains the outside files.
+
+var c13CLIValues = []string{
+	"..", "../outside", "../", "./..", "proto/../..", "proto/../../outside", "/", "/etc", "../ws-sibling", "proto/../../ws-sibling",
+	"../../", "a/../../outside", "..//outside", "./../outside/.", "../outside/o.proto", "proto/../../outside/o.proto", "....//outside", "proto/..", ".", "proto/.", "proto//", "./proto",
+}
+
+const c13Marker = "OutsideMarkerMessage"
+
+func c13CLICases(tier string) int { return len(c13CLIValues) }
+
+func c13CLI(c *core.C, idx int) {
+	val := c13CLIValues[idx%len(c13CLIValues)]
+	x := filepath.Join(c.Tmp, "c13cli")
+	os.RemoveAll(x)
+	defer os.RemoveAll(x)
+	outsideProto := "syntax = \"proto3\";\npackage outside;\nmessage " + c13Marker + " {}\n"
+	insideProto := "syntax = \"proto3\";\npackage in.v1;\nmessage   Inside   {   string   a=1; }\n"
+	base := map[string]string{
+		"outside/o.proto":      outsideProto,
+		"o.proto":              outsideProto,
+		"ws-sibling/o.proto":   outsideProto,
+		"ws/proto/in/v1/in.proto": insideProto,
+	}
+	env := run.BufEnv(filepath.Join(c.Tmp, "home"), nil)
+	type scenario struct {
+		name  string
+		files map[string]string
+		cmds  [][]string
+		// composed is the value as buf sees it (includes/excludes are written below the module directory)
+		composed string
+	}
+	scenarios := []scenario{
+		{"v2-module-path", map[string]string{"ws/buf.yaml": "version: v2\nmodules:\n  - path: proto\n  - path: " + yamlStr(val) + "\n"},
+			[][]string{{"ls-files"}, {"build", "-o", "-#format=json"}, {"format", "-w"}, {"export", ".", "-o", "../exported"}}, val},
+		{"v2-includes", map[string]string{"ws/buf.yaml": "version: v2\nmodules:\n  - path: proto\n    includes:\n      - " + yamlStr("proto/"+val) + "\n"},
+			[][]string{{"ls-files"}, {"build", "-o", "-#format=json"}}, "proto/" + val},
+		{"v2-excludes", map[string]string{"ws/buf.yaml": "version: v2\nmodules:\n  - path: proto\n    excludes:\n      - " + yamlStr("proto/"+val) + "\n"},
+			[][]string{{"ls-files"}, {"build", "-o", "-#format=json"}}, "proto/" + val},
+		{"v1beta1-roots", map[string]string{"ws/buf.yaml": "version: v1beta1\nbuild:\n  roots:\n    - proto\n    - " + yamlStr(val) + "\n"},
+			[][]string{{"ls-files"}, {"build", "-o", "-#format=json"}, {"format", "-w"}}, val},
+		{"v1-work-directories", map[string]string{"ws/buf.work.yaml": "version: v1\ndirectories:\n  - proto\n  - " + yamlStr(val) + "\n"},
+			[][]string{{"ls-files"}, {"build", "-o", "-#format=json"}}, val},
+		{"lint-ignore", map[string]string{"ws/buf.yaml": "version: v2\nmodules:\n  - path: proto\nlint:\n  ignore:\n    - " + yamlStr(val) + "\n"},
+			[][]string{{"lint"}}, val},
+		{"flag-path", map[string]string{"ws/buf.yaml": "version: v2\nmodules:\n  - path: proto\n"},
+			[][]string{{"ls-files", "--path", val}, {"build", "-o", "-#format=json", "--path", val}, {"build", "-o", "-#format=json", "--exclude-path", val}, {"format", "-w", "--path", val}}, val},
+	}
+	for _, sc := range scenarios {
+		for _, cmd := range sc.cmds {
+			os.RemoveAll(x)
+			files := map[string]string{}
+			for k, v := range base {
+				files[k] = v
+			}
+			for k, v := range sc.files {
+				files[k] = v
+			}
+			run.WriteTree(x, files)
+			before := run.Snapshot(x, "ws", "exported")
+			o := run.Buf(filepath.Join(x, "ws"), env, nil, cmd...)
+			c.Eval(1)
+			c.Count("cli_runs", 1)
+			after := run.Snapshot(x, "ws", "exported")
+			key := fmt.Sprintf("cli scenario=%s value=%q cmd=%s", sc.name, val, strings.Join(cmd, " "))
+			c.Nontrivial(fmt.Sprintf("cli %s value=%q", sc.name, val))
+			if d := run.DiffSnap(before, after); d != "" {
+				c.Violation("cli-outside-modified", key, fmt.Sprintf("`buf %s` changed files outside the workspace: %s", strings.Join(cmd, " "), d), nil)
+			}
+			out := string(o.Stdout) + string(o.Stderr)
+			if strings.Contains(out, c13Marker) {
+				c.Violation("cli-outside-read", key, fmt.Sprintf("`buf %s` output contains the content of a file outside the workspace", strings.Join(cmd, " ")), nil)
+			}
+			if o.Code == 0 {
+				for _, l := range strings.Split(string(o.Stdout), "\n") {
+					if strings.Contains(l, "outside/o.proto") || strings.Contains(l, "ws-sibling/o.proto") || l == "../o.proto" || l == "o.proto" {
+						c.Violation("cli-outside-listed", key, fmt.Sprintf("`buf %s` lists a file outside the workspace: %q", strings.Join(cmd, " "), l), nil)
+					}
+				}
+			}
+			// exported tree must not contain the outside files
+			if exp := run.Snapshot(filepath.Join(x, "exported")); len(exp) > 0 {
+				for p := range exp {
+					if strings.HasSuffix(p, "o.proto") && !strings.Contains(p, "in/v1") {
+						c.Violation("cli-outside-exported", key, "buf export copied a file from outside the workspace: "+p, nil)
+					}
+				}
+			}
+			// an escaping configuration value must be rejected (lint ignore / exclude values that
+			// merely match nothing are rejected too when they escape)
+			info := model.AnalyzePath(sc.composed)
+			if info.Escapes && sc.name != "flag-path" && o.Code == 0 {
+				c.Violation("cli-escape-accepted", key, fmt.Sprintf("escaping value %q accepted by `buf %s` (exit 0)", val, strings.Join(cmd, " ")), nil)
+			}
+			if info.Escapes {
+				c.Count("cli_escaping_runs", 1)
+			}
+		}
+	}
+	if idx == 0 {
+		c.Sample(map[string]any{"cli_boundary": map[string]any{"value": val, "scenarios": []string{"v2 module path", "v2 includes", "v2 excludes", "v1beta1 roots", "buf.work.yaml directories", "lint ignore", "--path/--exclude-path"}}})
+	}
+}
+
+func yamlStr(s string) string { return fmt.Sprintf("%q", s) }
